@@ -80,6 +80,7 @@ int main(int argc, char** argv) {
                                .raw("swapThr", J().num("num", swapThr.n).num("den", swapThr.d).done())
                                .boolean("swapValidation", swapValidation).boolean("modulate", modulate).done()));
     int failPct = r.pick(std::vector<int>{0, 0, 10, 25});
+    int vanishPct = r.pick(std::vector<int>{0, 15, 40});
     // some control-file writes fail (EAGAIN / the cgroup is on its way out): senpai must drop the cgroup cleanly
     I.onWriteErr = [&](const std::string& path, const std::string& data) -> int {
       auto pos = path.rfind('/');
@@ -169,7 +170,21 @@ int main(int argc, char** argv) {
       }
       evEmit(J().str("e", "STick").raw("cgs", J::arr(cj)).raw("sys", J().num("swaptotal", swapTotal).num("swappiness", swappiness).done()));
       ctx.refresh();
+      // sometimes a matched cgroup is removed in the MIDDLE of the tick: right before the k-th open of one of its
+      // files by the plugin (k = 0: before its first access, later k: between its reads / between read and write)
+      std::string doomed; int countdown = 0;
+      if (!order.empty() && r.chance(vanishPct)) { doomed = order[r.upto((int)order.size())].second; countdown = r.upto(9); }
+      I.onOpen = [&](const std::string& path, int) -> int {
+        if (doomed.empty()) return 0;
+        std::string dir = fs.root() + "/" + doomed + "/";
+        if (path.compare(0, dir.size(), dir) != 0) return 0;
+        if (countdown-- > 0) return 0;
+        evEmit(J().str("e", "Vanish").str("p", doomed).str("at", path.substr(dir.size())));
+        fs.rmcg(doomed); world.erase(doomed); doomed.clear();
+        return 0;
+      };
       pl->run(ctx);
+      I.onOpen = nullptr;
       evEmit(J().str("e", "STickEnd"));
     }
     I.onWrite = nullptr; I.onWriteErr = nullptr;
